@@ -576,8 +576,8 @@ def runfile_with_handles():
     }
     for prog in progs:
         ent = ['OPENFILE "s.txt" FOR WRITE', 'WRITEFILE "s.txt", "one"', 'OPENFILE "r.dat" FOR RANDOM', 'DECLARE n : INTEGER', 'n <- 4', 'SEEK "r.dat", 1', 'PUTRECORD "r.dat", n',
-               'RUNFILE "%s"' % prog, 'WRITEFILE "s.txt", "two"', 'SEEK "r.dat", 2', 'PUTRECORD "r.dat", n', 'OPENFILE "p.txt" FOR READ', 'OPENFILE "e.txt" FOR APPEND',
-               'WRITEFILE "p.txt", "session"', 'CLOSEFILE "s.txt"', 'CLOSEFILE "r.dat"', 'RUNFILE "%s"' % prog, 'OPENFILE "s.txt" FOR APPEND', 'WRITEFILE "s.txt", "three"']
+               'RUNFILE %s' % prog, 'WRITEFILE "s.txt", "two"', 'SEEK "r.dat", 2', 'PUTRECORD "r.dat", n', 'OPENFILE "p.txt" FOR READ', 'OPENFILE "e.txt" FOR APPEND',
+               'WRITEFILE "p.txt", "session"', 'CLOSEFILE "s.txt"', 'CLOSEFILE "r.dat"', 'RUNFILE %s' % prog, 'OPENFILE "s.txt" FOR APPEND', 'WRITEFILE "s.txt", "three"']
         for tail in ([], ['EXIT'], ['CLOSEFILE "s.txt"']):
             out.append(Case(mode='repl', stdin=J(ent + tail), files=dict(progs), limits=dict(steps=20000), meta=dict(gen='runfile-with-handles', sample=False)))
     return out
